@@ -281,7 +281,7 @@ def descInRange (d : ParserDesc) : Option String :=
 -- lracts  `S:<state>,R:<nt>:<prod>,A`   empty list `-`
 -- lrrows  `acts/gotos;…`                acts = `-` | `term:idx+…`, gotos = `-` | `nt:state+…`
 -- tnames  `<word>,…` with `?` for an unstated name;  ntnames `<word>,…`
--- skips   `<nats>;…` (one per scanner state)
+-- skips   `<nats>;…` (one per scanner state, `-` for an empty one); no scanner state at all: `~`
 -- modes   `name|toks|trans;…`  toks = `-` | `rx:ty:la+…` (rx = word | `?`; la = `-` | `p.<word>` | `n.<word>`)
 --                              trans = `-` | `ty:e:<mode>+ty:u:<mode>+ty:o`
 -- maxk    `<n>` | `?`
@@ -369,7 +369,7 @@ def parseDesc : List String → Option ParserDesc
     let lr ← listOf ";" parseDRow lr
     let tn ← listOf "," parseOptWord tn
     let nn ← listOf "," parseWord nn
-    let sk ← listOf ";" Proto.parseNats sk
+    let sk ← if sk == "~" then some [] else (sk.splitOn ";").mapM Proto.parseNats
     let mo ← listOf ";" parseDMode mo
     let mk ← if mk == "?" then some none else mk.toNat?.map some
     some ⟨k, st, ps, au, la, lr, tn, nn, sk, mo, mk⟩
